@@ -84,7 +84,7 @@ class Parser:  # pylint: disable=too-many-public-methods
     def assignment(self):
         expr = self.tilde()
         if self.match("EQUAL"):
-            right = self.addition()
+            right = self.comparison()
             if isinstance(expr, Variable):
                 return Assign(expr, right)
             else:
